@@ -9,6 +9,7 @@ import (
 	_ "verif/harness/props/c10"
 	_ "verif/harness/props/c11"
 	_ "verif/harness/props/c12"
+	_ "verif/harness/props/c16"
 	_ "verif/harness/props/c17"
 	_ "verif/harness/props/c18"
 	_ "verif/harness/props/c20"
